@@ -1,0 +1,14 @@
+//go:build verif
+
+package storage
+
+import "github.com/feichai0017/NoKV/manifest"
+
+// VerifManifest exposes the manifest manager behind a LocalStore to the verification
+// harness (full-version dump after OpenLocalStore, the PD open path).
+func (s *LocalStore) VerifManifest() *manifest.Manager {
+	if s == nil {
+		return nil
+	}
+	return s.manifest
+}
